@@ -12,6 +12,7 @@ import inspect
 import json
 import multiprocessing as mp
 import os
+import re
 import random
 import sys
 import time
@@ -97,6 +98,10 @@ def discharge(ob, tier, timeout, extra=()):
         r = solve.check_race(asserts, solvers=('z3', 'cvc5'), timeout=timeout)
     else:
         r = solve.check(asserts, solvers=order, timeout=timeout)
+    if r['verdict'] not in ('sat', 'unsat') and os.environ.get('VERIF_DUMP'):
+        os.makedirs(os.environ['VERIF_DUMP'], exist_ok=True)
+        fn = os.path.join(os.environ['VERIF_DUMP'], re.sub(r'[^A-Za-z0-9_.#-]+', '_', ob.name)[:150] + '.smt2')
+        open(fn, 'w').write(solve.script(asserts))
     return dict(verdict=r['verdict'], solver=r['solver'], seconds=r['seconds'], log=r['log'])
 
 
